@@ -12,7 +12,7 @@
        k = first section with a failure  -> leaves in section k: with its own exception if it threw there, otherwise
                                             with MPIGuardError at the checkpoint of section k; k+1 checkpoints.  *)
 From Coq Require Import List Bool Arith NArith.
-From DuneV Require Import Params_gen C19_Model C19_Spec C19_Proofs C19_Proofs_Fut.
+From DuneV Require Import Params_gen C19_Model C19_Spec C19_Proofs C19_Proofs_Fut C19_Proofs_Pool.
 Import ListNotations.
 
 (* every P, every S >= 1, every outcome matrix, guard initially active or not (then re-armed first):
@@ -326,3 +326,40 @@ Example C19_example_future :
      C19_TOp C19_Get (C19_RData 42); C19_TOp C19_Valid (C19_RBool false); C19_TOp C19_Get C19_RInvalid; C19_TOp C19_Wait C19_RInvalid].
 Proof. exact P_example_future. Qed.
 Print Assumptions C19_example_future.
+
+(* Several future objects and the requests posted in MPI (model part 3).  c19_xrun true e k ops (c19_xinit n): a process with n
+   future variables (raw MPIFuture of buffer kind k, or type-erased Dune::Future if e) executes ANY sequence of
+   post (construction from / move assignment of the future returned by irecv or isend - whatever the variable held before:
+   nothing, a pending, a completed, a consumed or a moved-from operation), move construction, move assignment between variables,
+   destruction, valid / ready / wait / get and message arrivals.  After every such history the multiset of requests posted in MPI
+   equals the multiset of requests the live future objects stand for, no request is posted twice, none is unknown to MPI:
+   no operation is left posted without a future (it would swallow a later message), no future refers to a released request *)
+Theorem C19_requests_owned : forall (e : bool) (k : c19_bkind) (n : nat) (ops : list c19_xop),
+  let st := c19_xrun true e k ops (c19_xinit n) in
+  (forall h, count_occ Nat.eq_dec (c19_owned (c19_xslots st)) h = count_occ Nat.eq_dec (c19_handles (c19_xpool st)) h) /\
+  (forall h, count_occ Nat.eq_dec (c19_handles (c19_xpool st)) h <= 1) /\
+  (forall h, c19_xnext st <= h -> count_occ Nat.eq_dec (c19_handles (c19_xpool st)) h = 0).
+Proof. exact P_requests_owned_init. Qed.
+Print Assumptions C19_requests_owned.
+
+(* ... hence once every future object has been destroyed nothing is left posted, whatever happened before *)
+Theorem C19_no_request_left_posted : forall (e : bool) (k : c19_bkind) (n : nat) (ops : list c19_xop),
+  c19_xpool (c19_xrun true e k (ops ++ map C19_XDestroy (seq 0 n)) (c19_xinit n)) = [].
+Proof. exact P_no_request_left_posted. Qed.
+Print Assumptions C19_no_request_left_posted.
+
+(* non-vacuity: a receive re-posted on the same variable while the first one is pending; the message goes to the second *)
+Example C19_example_repost : forall e,
+  c19_xtrace true e C19_BRef [C19_XPost false 0 0; C19_XPost false 0 0; C19_XSend 42; C19_XGet 0; C19_XDestroy 0] (c19_xinit 1) =
+  [(C19_XRUnit, (1, 1)); (C19_XRUnit, (1, 1)); (C19_XRUnit, (1, 1)); (C19_XRData 42, (0, 0)); (C19_XRUnit, (0, 0))].
+Proof. exact P_example_repost. Qed.
+Print Assumptions C19_example_repost.
+
+(* an operator= that takes the source's members over without withdrawing the target's previous operation is refuted:
+   two requests posted for one future, the abandoned receive takes the message, get() blocks *)
+Theorem C19_assign_takeover_refuted :
+  c19_xtrace false false C19_BRef [C19_XPost false 0 0; C19_XPost false 0 0; C19_XSend 42; C19_XGet 0; C19_XDestroy 0] (c19_xinit 1) =
+  [(C19_XRUnit, (1, 1)); (C19_XRUnit, (2, 1)); (C19_XRUnit, (2, 1)); (C19_XRBlocks, (2, 1)); (C19_XRUnit, (1, 0))] /\
+  ~ c19_xinv (c19_xrun false false C19_BRef [C19_XPost false 0 0; C19_XPost false 0 0; C19_XSend 42; C19_XGet 0; C19_XDestroy 0] (c19_xinit 1)).
+Proof. exact P_takeover_refuted. Qed.
+Print Assumptions C19_assign_takeover_refuted.
